@@ -292,7 +292,20 @@ where
         // place all probability mass on a single symbol).
         assert!(support.end() > support.start());
 
-        let support_size_minus_one = support.end().wrapping_sub(support.start()).as_();
+        let support_size_minus_one: Probability =
+            support.end().wrapping_sub(support.start()).as_();
+        if let (Some(start), Some(end), Some(size_minus_one)) = (
+            support.start().to_i128(),
+            support.end().to_i128(),
+            support_size_minus_one.to_i128(),
+        ) {
+            // The above cast to `Probability` silently truncates if `Symbol` is wider than
+            // `Probability`.
+            assert!(
+                end.checked_sub(start) == Some(size_minus_one),
+                "The support is too large to assign a nonzero probability to each element."
+            );
+        }
         let max_probability = Probability::max_value() >> (Probability::BITS - PRECISION);
         let free_weight = max_probability
             .checked_sub(&support_size_minus_one)
